@@ -46,3 +46,18 @@ def _v5(repo, mod):
 def _v6(repo, mod):
     fn = repo.func(AR, "CoverageArchive.update")
     return insert_before(mod, fn.body[-1], "_unused = 0")
+
+
+@variant("C13", "local-search-on-archived-objects", DY, "C13.aliasing", "local search gets the archive's own chromosomes")
+def _v20(repo, mod):
+    fn = repo.func(DY, "DynaMOSAAlgorithm.local_search")
+    c = find_node(fn, lambda n: isinstance(n, ast.Call) and norm(n) == "chromosome.clone()")
+    return replace_node(mod, c, "chromosome")
+
+
+@variant("C13", "twin-clone-through-local", DY, None, "clone bound to a local first")
+def _v21(repo, mod):
+    fn = repo.func(DY, "DynaMOSAAlgorithm.local_search")
+    s = find_stmt(fn, lambda s: isinstance(s, ast.Expr) and norm(s) == "test_cases.add(chromosome.clone())")
+    ind = " " * s.col_offset
+    return replace_node(mod, s, f"copy_ = chromosome.clone()\n{ind}test_cases.add(copy_)")
